@@ -78,6 +78,8 @@ def rule_xconf(ctx):
     ctx.note("bodies compared: %d" % programs)
 
 
+THOROUGH_FS = []
+
 RULES = [("XCONF", rule_xconf, 8)]
 
 MANIFEST = {
